@@ -13,6 +13,24 @@ model/Id.vos model/Id.vok model/Id.required_vos: model/Id.v model/Bytes.vos mode
 model/Check19.vo model/Check19.glob model/Check19.v.beautified model/Check19.required_vo: model/Check19.v model/Bytes.vo model/Crc32c.vo model/Id.vo
 model/Check19.vio: model/Check19.v model/Bytes.vio model/Crc32c.vio model/Id.vio
 model/Check19.vos model/Check19.vok model/Check19.required_vos: model/Check19.v model/Bytes.vos model/Crc32c.vos model/Id.vos
+model/Node.vo model/Node.glob model/Node.v.beautified model/Node.required_vo: model/Node.v gen/Params.vo model/Bytes.vo model/Crc32c.vo model/Id.vo
+model/Node.vio: model/Node.v gen/Params.vio model/Bytes.vio model/Crc32c.vio model/Id.vio
+model/Node.vos model/Node.vok model/Node.required_vos: model/Node.v gen/Params.vos model/Bytes.vos model/Crc32c.vos model/Id.vos
+model/BSearch.vo model/BSearch.glob model/BSearch.v.beautified model/BSearch.required_vo: model/BSearch.v 
+model/BSearch.vio: model/BSearch.v 
+model/BSearch.vos model/BSearch.vok model/BSearch.required_vos: model/BSearch.v 
+model/Closest.vo model/Closest.glob model/Closest.v.beautified model/Closest.required_vo: model/Closest.v gen/Params.vo model/Bytes.vo model/Crc32c.vo model/Id.vo model/Node.vo model/BSearch.vo
+model/Closest.vio: model/Closest.v gen/Params.vio model/Bytes.vio model/Crc32c.vio model/Id.vio model/Node.vio model/BSearch.vio
+model/Closest.vos model/Closest.vok model/Closest.required_vos: model/Closest.v gen/Params.vos model/Bytes.vos model/Crc32c.vos model/Id.vos model/Node.vos model/BSearch.vos
+model/RTable.vo model/RTable.glob model/RTable.v.beautified model/RTable.required_vo: model/RTable.v gen/Params.vo model/Bytes.vo model/Crc32c.vo model/Id.vo model/Node.vo model/BSearch.vo model/Closest.vo
+model/RTable.vio: model/RTable.v gen/Params.vio model/Bytes.vio model/Crc32c.vio model/Id.vio model/Node.vio model/BSearch.vio model/Closest.vio
+model/RTable.vos model/RTable.vok model/RTable.required_vos: model/RTable.v gen/Params.vos model/Bytes.vos model/Crc32c.vos model/Id.vos model/Node.vos model/BSearch.vos model/Closest.vos
+model/Check11.vo model/Check11.glob model/Check11.v.beautified model/Check11.required_vo: model/Check11.v gen/Params.vo model/Bytes.vo model/Crc32c.vo model/Id.vo model/Node.vo model/BSearch.vo model/Closest.vo model/RTable.vo
+model/Check11.vio: model/Check11.v gen/Params.vio model/Bytes.vio model/Crc32c.vio model/Id.vio model/Node.vio model/BSearch.vio model/Closest.vio model/RTable.vio
+model/Check11.vos model/Check11.vok model/Check11.required_vos: model/Check11.v gen/Params.vos model/Bytes.vos model/Crc32c.vos model/Id.vos model/Node.vos model/BSearch.vos model/Closest.vos model/RTable.vos
+model/Check12.vo model/Check12.glob model/Check12.v.beautified model/Check12.required_vo: model/Check12.v gen/Params.vo model/Bytes.vo model/Crc32c.vo model/Id.vo model/Node.vo model/BSearch.vo model/Closest.vo model/RTable.vo model/Check11.vo
+model/Check12.vio: model/Check12.v gen/Params.vio model/Bytes.vio model/Crc32c.vio model/Id.vio model/Node.vio model/BSearch.vio model/Closest.vio model/RTable.vio model/Check11.vio
+model/Check12.vos model/Check12.vok model/Check12.required_vos: model/Check12.v gen/Params.vos model/Bytes.vos model/Crc32c.vos model/Id.vos model/Node.vos model/BSearch.vos model/Closest.vos model/RTable.vos model/Check11.vos
 proofs/Sweep.vo proofs/Sweep.glob proofs/Sweep.v.beautified proofs/Sweep.required_vo: proofs/Sweep.v model/Bytes.vo
 proofs/Sweep.vio: proofs/Sweep.v model/Bytes.vio
 proofs/Sweep.vos proofs/Sweep.vok proofs/Sweep.required_vos: proofs/Sweep.v model/Bytes.vos
@@ -22,3 +40,18 @@ proofs/IdProofs.vos proofs/IdProofs.vok proofs/IdProofs.required_vos: proofs/IdP
 properties/C19.vo properties/C19.glob properties/C19.v.beautified properties/C19.required_vo: properties/C19.v model/Bytes.vo model/Crc32c.vo model/Id.vo model/Check19.vo proofs/IdProofs.vo
 properties/C19.vio: properties/C19.v model/Bytes.vio model/Crc32c.vio model/Id.vio model/Check19.vio proofs/IdProofs.vio
 properties/C19.vos properties/C19.vok properties/C19.required_vos: properties/C19.v model/Bytes.vos model/Crc32c.vos model/Id.vos model/Check19.vos proofs/IdProofs.vos
+proofs/BSearchProofs.vo proofs/BSearchProofs.glob proofs/BSearchProofs.v.beautified proofs/BSearchProofs.required_vo: proofs/BSearchProofs.v model/BSearch.vo
+proofs/BSearchProofs.vio: proofs/BSearchProofs.v model/BSearch.vio
+proofs/BSearchProofs.vos proofs/BSearchProofs.vok proofs/BSearchProofs.required_vos: proofs/BSearchProofs.v model/BSearch.vos
+proofs/ClosestProofs.vo proofs/ClosestProofs.glob proofs/ClosestProofs.v.beautified proofs/ClosestProofs.required_vo: proofs/ClosestProofs.v gen/Params.vo model/Bytes.vo model/Crc32c.vo model/Id.vo model/Node.vo model/BSearch.vo model/Closest.vo proofs/BSearchProofs.vo
+proofs/ClosestProofs.vio: proofs/ClosestProofs.v gen/Params.vio model/Bytes.vio model/Crc32c.vio model/Id.vio model/Node.vio model/BSearch.vio model/Closest.vio proofs/BSearchProofs.vio
+proofs/ClosestProofs.vos proofs/ClosestProofs.vok proofs/ClosestProofs.required_vos: proofs/ClosestProofs.v gen/Params.vos model/Bytes.vos model/Crc32c.vos model/Id.vos model/Node.vos model/BSearch.vos model/Closest.vos proofs/BSearchProofs.vos
+proofs/RTableProofs.vo proofs/RTableProofs.glob proofs/RTableProofs.v.beautified proofs/RTableProofs.required_vo: proofs/RTableProofs.v gen/Params.vo model/Bytes.vo model/Crc32c.vo model/Id.vo model/Node.vo model/BSearch.vo model/Closest.vo model/RTable.vo proofs/BSearchProofs.vo proofs/ClosestProofs.vo proofs/IdProofs.vo
+proofs/RTableProofs.vio: proofs/RTableProofs.v gen/Params.vio model/Bytes.vio model/Crc32c.vio model/Id.vio model/Node.vio model/BSearch.vio model/Closest.vio model/RTable.vio proofs/BSearchProofs.vio proofs/ClosestProofs.vio proofs/IdProofs.vio
+proofs/RTableProofs.vos proofs/RTableProofs.vok proofs/RTableProofs.required_vos: proofs/RTableProofs.v gen/Params.vos model/Bytes.vos model/Crc32c.vos model/Id.vos model/Node.vos model/BSearch.vos model/Closest.vos model/RTable.vos proofs/BSearchProofs.vos proofs/ClosestProofs.vos proofs/IdProofs.vos
+properties/C11.vo properties/C11.glob properties/C11.v.beautified properties/C11.required_vo: properties/C11.v gen/Params.vo model/Bytes.vo model/Crc32c.vo model/Id.vo model/Node.vo model/BSearch.vo model/Closest.vo model/RTable.vo proofs/BSearchProofs.vo proofs/ClosestProofs.vo proofs/RTableProofs.vo
+properties/C11.vio: properties/C11.v gen/Params.vio model/Bytes.vio model/Crc32c.vio model/Id.vio model/Node.vio model/BSearch.vio model/Closest.vio model/RTable.vio proofs/BSearchProofs.vio proofs/ClosestProofs.vio proofs/RTableProofs.vio
+properties/C11.vos properties/C11.vok properties/C11.required_vos: properties/C11.v gen/Params.vos model/Bytes.vos model/Crc32c.vos model/Id.vos model/Node.vos model/BSearch.vos model/Closest.vos model/RTable.vos proofs/BSearchProofs.vos proofs/ClosestProofs.vos proofs/RTableProofs.vos
+properties/C12.vo properties/C12.glob properties/C12.v.beautified properties/C12.required_vo: properties/C12.v gen/Params.vo model/Bytes.vo model/Crc32c.vo model/Id.vo model/Node.vo model/BSearch.vo model/Closest.vo model/RTable.vo proofs/RTableProofs.vo
+properties/C12.vio: properties/C12.v gen/Params.vio model/Bytes.vio model/Crc32c.vio model/Id.vio model/Node.vio model/BSearch.vio model/Closest.vio model/RTable.vio proofs/RTableProofs.vio
+properties/C12.vos properties/C12.vok properties/C12.required_vos: properties/C12.v gen/Params.vos model/Bytes.vos model/Crc32c.vos model/Id.vos model/Node.vos model/BSearch.vos model/Closest.vos model/RTable.vos proofs/RTableProofs.vos
